@@ -16,6 +16,7 @@ import NiftyVerif.Lemmas.ControllersSqrt
 import NiftyVerif.Lemmas.CgClassicHist
 import NiftyVerif.Lemmas.CgClassicExact
 import NiftyVerif.Lemmas.CgClassicLast
+import NiftyVerif.Lemmas.CgClassicOptimal
 import NiftyVerif.Lemmas.CgClassicInstances
 import Mathlib.LinearAlgebra.Dimension.Constructions
 
@@ -589,6 +590,16 @@ theorem cg_exact_in_n_steps (S : Sys V K) (hS : S.SPDP) [FiniteDimensional K V] 
     (fuel : Nat) (hfuel : Module.finrank K V ≤ fuel) (E : QE V K) (hE : E.Consistent S) :
     (cg S c nreset fuel E).reason ≠ .fuel ∧ (cg S c nreset fuel E).iters.length ≤ Module.finrank K V :=
   cg_exact S hS c nreset fuel hfuel E hE
+
+/-- **Optimality of what CG returns** (SPD `A`, linear self-adjoint definite `P`, finite dimension): after its `k` passes
+    through the loop the returned position `x` satisfies `x − x₀ ∈ W` for a subspace `W` of dimension exactly `k` (the span
+    of the search directions) and minimises the quadratic energy over `x₀ + W`:  `E(x) ≤ E(x + v)` for all `v ∈ W`. -/
+theorem cg_optimal_on_subspace (S : Sys V K) (hS : S.SPDP) [FiniteDimensional K V] (c : Ctrl K τ) (nreset : Int)
+    (fuel : Nat) (E : QE V K) (hE : E.Consistent S) :
+    ∃ W : Submodule K V, Module.finrank K W = (cg S c nreset fuel E).iters.length ∧
+      (cg S c nreset fuel E).energy.pos - E.pos ∈ W ∧
+      ∀ v ∈ W, trueValue S (cg S c nreset fuel E).energy.pos ≤ trueValue S ((cg S c nreset fuel E).energy.pos + v) :=
+  cg_optimal S hS c nreset fuel E hE
 
 /-- With a compatible complex structure `J` (`J² = −1`, isometry of `ip`, commuting with `A` and the preconditioner —
     multiplication by `i` for a complex Hermitian system) CG makes at most `dim_K V / 2` passes through its loop. -/
